@@ -9,7 +9,7 @@ use crate::chess::Game;
 use crate::obs::{self, guard};
 use crate::play::{emit, open_out};
 use crate::rng::Rng;
-use crate::search::{get_best_move_entry, TranspositionTable};
+use crate::search::{get_best_move_entry, verif_window_search, TranspositionTable};
 use crate::searchdrv::{build_game, Capture};
 use crate::verif;
 use crate::Args;
@@ -80,6 +80,10 @@ pub fn run(args: &Args) {
                 continue;
             }
         };
+        if case.get("win").is_some() {
+            windows(&mut out, &mut cap, &case, &game, &fen, &pre, d, &mut rng);
+            continue;
+        }
         let mut nodes: Vec<Node> = vec![];
         let mut g = game.clone();
         let built = guard(|| {
@@ -132,4 +136,100 @@ pub fn run(args: &Args) {
         emit(&mut out, e);
     }
     out.flush().unwrap();
+}
+
+fn nodes_json(nodes: &[Node]) -> Vec<Value> {
+    nodes
+        .iter()
+        .map(|n| json!({"ev": n.ev, "kx": n.kx, "chk": n.chk, "nm": n.nm, "r": n.r, "p": n.p, "ch": n.ch.iter().map(|c| c + 1).collect::<Vec<_>>()}))
+        .collect()
+}
+
+const WLIM: i32 = 14000;
+
+/// C09, window level: the windowed search is called as an interior node (any window, depth d, table lookups
+/// disabled, fresh or arbitrary history) on the position itself or on the positions after each pseudo-legal but
+/// illegal move (the mover's king can be taken), and the tree below it is dumped for the exhaustive reference.
+#[allow(clippy::too_many_arguments)]
+fn windows(out: &mut crate::play::Out, cap: &mut Capture, case: &Value, game: &Game, fen: &str, pre: &[String], d: i32, rng: &mut Rng) {
+    let nwin = case["win"].as_u64().unwrap_or(8) as usize;
+    let mut targets: Vec<(String, Game)> = vec![];
+    if case["illegal"].as_bool().unwrap_or(false) {
+        let mut g = game.clone();
+        let legal = obs::texts(&obs::gen(&mut g, true));
+        for m in obs::gen(&mut g, false) {
+            if !legal.contains(&m.uci_notation()) && targets.len() < 4 {
+                let mut g2 = game.clone();
+                g2.push(m);
+                targets.push((m.uci_notation(), g2));
+            }
+        }
+    } else {
+        targets.push((String::new(), game.clone()));
+    }
+    for (via, tgt) in targets {
+        let base = json!({"ev": "win", "fen": fen, "pre": pre, "d": d, "via": via, "win": nwin, "seed": case["seed"].as_u64().unwrap_or(1),
+                          "illegal": case["illegal"].as_bool().unwrap_or(false)});
+        let mut nodes: Vec<Node> = vec![];
+        let mut g = tgt.clone();
+        let built = guard(|| {
+            build(&mut g, d, 0, false, &mut nodes);
+        });
+        if let Err(msg) = built {
+            let mut e = base.clone();
+            e["panic"] = json!(msg);
+            emit(out, e);
+            continue;
+        }
+        if nodes.len() > MAX_NODES {
+            let mut e = base.clone();
+            e["skip"] = json!("tree too large");
+            emit(out, e);
+            continue;
+        }
+        let mut search = |a: i32, b: i32, order: usize, rng: &mut Rng| -> Value {
+            let mut hist = [0u16; 768];
+            if order > 0 {
+                for h in hist.iter_mut() {
+                    *h = (rng.next() % 9000) as u16;
+                }
+            }
+            let mut table: TranspositionTable = Default::default();
+            let flag = AtomicBool::new(true);
+            verif::reset(u64::MAX, true);
+            cap.begin();
+            let mut g2 = tgt.clone();
+            let r = guard(|| verif_window_search(&mut g2, &mut table, &flag, d as u8, 0, a as i16, b as i16, &mut hist));
+            let _ = cap.end();
+            verif::reset(u64::MAX, false);
+            match r {
+                Ok(Some(score)) => json!({"a": a, "b": b, "score": score, "order": order}),
+                Ok(None) => json!({"a": a, "b": b, "aborted": true, "order": order}),
+                Err(msg) => json!({"a": a, "b": b, "panic": msg, "order": order}),
+            }
+        };
+        let mut runs = vec![search(-WLIM, WLIM, 0, rng)];
+        let v0 = runs[0]["score"].as_i64().unwrap_or(0) as i32;
+        let ev = nodes[0].ev;
+        let mut bases: Vec<i32> = vec![-WLIM, WLIM];
+        for c in [ev, v0] {
+            for dl in [-2600, -1801, -1000, -300, -1, 0, 1, 300, 1000, 1801, 2600] {
+                bases.push((c + dl).clamp(-WLIM, WLIM));
+            }
+        }
+        for k in 0..nwin {
+            let a = bases[(rng.next() % bases.len() as u64) as usize];
+            let b = if k % 2 == 0 { a + 1 } else { bases[(rng.next() % bases.len() as u64) as usize] };
+            let (a, b) = if a < b { (a, b) } else if b < a { (b, a) } else { (a, a + 1) };
+            if b > WLIM + 1 {
+                continue;
+            }
+            runs.push(search(a, b, k % 2, rng));
+        }
+        let mut e = base.clone();
+        e["n"] = json!(nodes.len());
+        e["runs"] = json!(runs);
+        e["nodes"] = json!(nodes_json(&nodes));
+        emit(out, e);
+    }
 }
